@@ -310,11 +310,15 @@ def _indices(kind):
     if kind == 'SparseVector':   # size 3
         return {'int': 1, 'neg-int-free slice': slice(0, 2), 'open slice': slice(None), 'step slice': slice(0, 3, 2),
                 'list': [2, 0], 'ndarray': np.array([0, 2]), 'bool list': [True, False, True], 'bool ndarray': np.array([False, True, True]),
-                'tuple(int)': (1,), 'empty list': []}
+                'tuple(int)': (1,), 'empty list': [],
+                # index lists that repeat a position / are longer than the vector (added after seeded change C09_8)
+                'repeated list': [1, 1], 'long repeated list': [2, 0, 2, 2, 0], 'repeated ndarray': np.array([0, 0, 2])}
     return {'row': 1, 'row,col': (1, 0), 'row,slice': (0, slice(None)), 'slice,col': (slice(None), 1), 'slice,slice': (slice(None), slice(None)),
             'row list': [1, 0], 'rowlist,collist': ([0, 1], [1, 0]), 'slice,collist': (slice(None), [1, 0]), 'rowlist,slice': ([1], slice(None)),
             'bool rows': [True, False], '2-d bool mask': np.array([[True, False], [False, True]]), 'row,part slice': (1, slice(0, 1)),
-            'partslice,col': (slice(0, 1), 1), 'rowlist,col': ([0, 1], 1), 'open slice': slice(None)}
+            'partslice,col': (slice(0, 1), 1), 'rowlist,col': ([0, 1], 1), 'open slice': slice(None),
+            'slice,repeated collist': (slice(None), [1, 1, 0]), 'repeated row list': [1, 1, 0], 'repeated rowlist,collist': ([0, 0, 1], [1, 1, 0]),
+            'row,repeated collist': (1, [0, 0, 1])}
 
 
 def getset_configs(tier):
